@@ -38,10 +38,33 @@ theorem C12_gen_version_table :
     ∃ t, Generated.C12.versionTable = some t ∧ ∀ e ∈ t, parseVersion e.1 = e.2 :=
   ⟨_, rfl, by decide⟩
 
+/-- **Which attributes belong to the header.**  On the grid of 8 attribute namespaces (none,
+the bare `xml` prefix, the XML namespace, a foreign namespace, the stream namespace, `xmlns`,
+`jabber:client`, the framing namespace) × 9 local names the model's `applyAttrs` records
+exactly what the real `Info.FromStartElement` records (evaluated at extraction time): `id`,
+`version`, `to`, `from`, `xmlns` only without a namespace, `lang` only in the XML namespace —
+`x:id`, `stream:version`, `xml:to` … are not the header's. -/
+theorem C12_gen_attr_grid :
+    ∃ t, Generated.C12.attrGrid = some t ∧ ∀ e ∈ t, applyOne e.1 e.2.1 e.2.2.1 = e.2.2.2 :=
+  ⟨_, rfl, by decide⟩
+
+/-- the model reads an attribute into the stream information only under these names -/
+theorem C12_header_attribute_names (pj : String → Option String) (a : Attr) (i0 : Info)
+    (h : a.name ≠ ⟨"", "xmlns"⟩ ∧ a.name ≠ ⟨"", "to"⟩ ∧ a.name ≠ ⟨"", "from"⟩ ∧ a.name ≠ ⟨"", "id"⟩ ∧
+      a.name ≠ ⟨"", "version"⟩ ∧ a.name ≠ ⟨nsXML, "lang"⟩ ∧ a.name ≠ ⟨"xml", "lang"⟩)
+    (as : List Attr) : applyAttrs pj (a :: as) i0 = applyAttrs pj as i0 := by
+  obtain ⟨h1, h2, h3, h4, h5, h6, h7⟩ := h
+  simp [applyAttrs, h1, h2, h3, h4, h5, h6, h7]
+
 /-- the `bind` feature value keeps no mutable state either: no variable of `bind` (bind.go) is
 written or address-taken inside its `List` / `Parse` / `Negotiate` closures, so the sessions
 that share one `BindResource()` / `BindCustom(…)` value share nothing that changes -/
 theorem C12_gen_bind_closure_no_shared_writes : Generated.C12.bindClosureWrites = some [] := by decide
+
+/-- … and no variable of `bind` that is computed by a call when the feature value is built
+(outside the closures) is used inside them: nothing that ought to be per-session data — a
+random resource, say — is drawn once per feature value (see `C12_bind_random_fresh`) -/
+theorem C12_gen_bind_no_captured_call_results : Generated.C12.bindCapturedCallResults = some [] := by decide
 
 end facts
 
@@ -616,7 +639,7 @@ theorem C12_bind_reply (remote reqId : String) (reqRes : Option String) (reqTo r
     (∀ q, (server remote reqId reqRes reqTo reqFrom cb).reply = some q →
       q.id = reqId ∧ q.to = addrOf reqFrom ∧ q.src = addrOf reqTo) ∧
     (cb = .default → ∃ q, (server remote reqId reqRes reqTo reqFrom cb).reply = some q ∧
-      q.type = "result" ∧ q.assigned = some .random ∧
+      q.type = "result" ∧ q.assigned = some (.random 0) ∧
       (server remote reqId reqRes reqTo reqFrom cb).ready = true) ∧
     (∀ j, cb = .address j → ∃ q, (server remote reqId reqRes reqTo reqFrom cb).reply = some q ∧
       q.type = "result" ∧ q.assigned = some (.jid j) ∧ q.cond = none ∧
@@ -630,6 +653,59 @@ theorem C12_bind_reply (remote reqId : String) (reqRes : Option String) (reqTo r
       (server remote reqId reqRes reqTo reqFrom cb).ready = false) ∧
     (cb ≠ .default → (server remote reqId reqRes reqTo reqFrom cb).cbArgs = some (remote, reqRes.getD "")) := by
   cases cb <;> simp [server, hto, hfrom] <;> (intro q hq; subst hq; simp)
+
+/-- every random value `serveAll k` assigns was drawn at or after position `k`, and they
+increase strictly in the order of the sessions -/
+theorem randomIds_serveAll (rs : List Req) : ∀ k,
+    (∀ x ∈ randomIds (serveAll k rs), k ≤ x) ∧ (randomIds (serveAll k rs)).Pairwise (· < ·) := by
+  induction rs with
+  | nil => intro k; simp [serveAll, randomIds]
+  | cons r rs ih =>
+    intro k
+    obtain ⟨rem, id, res, rto, rfrom, cb⟩ := r
+    by_cases hd : (Req.drawsRandom ⟨rem, id, res, rto, rfrom, cb⟩) = true
+    · -- the default callback runs: this session gets value k, the others later ones
+      have hcb : cb = .default ∧ rto ≠ .invalid ∧ rfrom ≠ .invalid := by
+        simp only [Req.drawsRandom, Bool.and_eq_true, beq_iff_eq, Bool.not_eq_true', Bool.or_eq_false_iff,
+          beq_eq_false_iff_ne, ne_eq] at hd
+        exact ⟨hd.1, hd.2.1, hd.2.2⟩
+      obtain ⟨rfl, h1, h2⟩ := hcb
+      obtain ⟨i1, i2⟩ := ih (k + 1)
+      simp only [serveAll, hd, if_true, randomIds, server, h1, h2, or_self, if_false]
+      refine ⟨?_, ?_⟩
+      · intro x hx
+        rcases List.mem_cons.mp hx with rfl | hx
+        · exact Nat.le_refl _
+        · exact Nat.le_of_succ_le (i1 x hx)
+      · exact List.pairwise_cons.mpr ⟨fun x hx => i1 x hx, i2⟩
+    · have hd' : (Req.drawsRandom ⟨rem, id, res, rto, rfrom, cb⟩) = false := by simpa using hd
+      obtain ⟨i1, i2⟩ := ih k
+      have hnone : randomIds (serveAll k (⟨rem, id, res, rto, rfrom, cb⟩ :: rs)) = randomIds (serveAll k rs) := by
+        simp only [serveAll, hd', Bool.false_eq_true, if_false, randomIds]
+        by_cases hinv : rto = .invalid ∨ rfrom = .invalid
+        · simp [server, hinv]
+        · cases cb with
+          | default =>
+            simp only [Req.drawsRandom, beq_self_eq_true, Bool.true_and, Bool.not_eq_false',
+              Bool.or_eq_true, beq_iff_eq] at hd'
+            exact absurd hd' hinv
+          | address j => simp [server, hinv]
+          | stanzaError c => simp [server, hinv]
+          | failure => simp [server, hinv]
+      rw [hnone]
+      exact ⟨i1, i2⟩
+
+/-- **Freshness across sessions.**  The random source is called once per session that is
+served by the default callback — not once per feature value — so whatever else the sessions
+sharing one `BindResource()` value do, no two of them are assigned the same random resource. -/
+theorem C12_bind_random_fresh (rs : List Req) (k : Nat) : (randomIds (serveAll k rs)).Nodup := by
+  have := (randomIds_serveAll rs k).2
+  exact this.imp (fun h => Nat.ne_of_lt h)
+
+example : randomIds (serveAll 0 [⟨"a@b", "1", none, .absent, .absent, .default⟩,
+    ⟨"a@b", "2", none, .absent, .absent, .address "a@b/x"⟩,
+    ⟨"a@b", "3", none, .invalid, .absent, .default⟩,
+    ⟨"a@b", "4", none, .absent, .absent, .default⟩]) = [0, 1] := by decide
 
 theorem C12_bind_bad_request_address (remote reqId : String) (reqRes : Option String)
     (reqTo reqFrom : JidField) (cb : Callback) (h : reqTo = .invalid ∨ reqFrom = .invalid) :
